@@ -224,9 +224,11 @@ def van_rule(chk, db, rule_id):
     return npairs
 
 
-def walk_rule(chk, db, rule_id, npts=40):
+def walk_rule(chk, db, rule_id, npts=None):
     """the inline ancestor walk of van_matrix takes the same steps as getParent<rule>, and the columns pushed explicitly are
     exactly the ancestors at which the walk stops"""
+    from tsg.tier import pick
+    npts = npts or pick(40, 160)
     pe = PEval(db)
     GP = {f.d.get("targs", "").rsplit("::", 1)[-1]: f for f in db.fns(RL + "getParent", [HPP]) if f.d.get("targs")}
     GSP = {f.d.get("targs", "").rsplit("::", 1)[-1]: f for f in db.fns(RL + "getStepParent", [HPP]) if f.d.get("targs")}
